@@ -65,3 +65,13 @@ package xfer
 //@   ensures[too-long-refused] result == nil ==> len(x.filters) <= 255
 //@   ensures[all-or-error] result == nil ==> len(x.filters) == old(len(x.filters)) + len(filterID)
 //@   loop 0: invariant[count] $idx >= -1 && $idx + 1 <= len(filterID) && len(x.filters) == old(len(x.filters)) + $idx + 1
+
+// ---- C12: the reply inherits the request's pipe ------------------------------
+// #inheritedFrom records the pipe whose filters were appended last (ghost).
+//@ ghost field (*XferPipe).inheritedFrom int
+//@ func (*XferPipe).AppendFrom
+//@   property C12
+//@   modifies x.filters, allelems(type(XferFilter))
+//@   ghostset x.#inheritedFrom = src
+//@   ensures[appended] len(x.filters) == old(len(x.filters)) + old(len(src.filters))
+//@   loop 0: invariant[count] $idx >= -1 && $idx + 1 <= old(len(src.filters)) && len(x.filters) == old(len(x.filters)) + $idx + 1
